@@ -67,6 +67,8 @@ func (c *ProposerRelayConfig) MarshalJSON() ([]byte, error) {
 	var minValue string
 	if c.MinValue != nil {
 		minValue = fmt.Sprintf("%v", c.MinValue.Div(weiPerETH))
+		// Div() rounds to 16 decimal places; shifting the decimal point keeps wei granularity.
+		minValue = c.MinValue.Shift(-18).String()
 	}
 	return json.Marshal(&proposerRelayConfigJSON{
 		Disabled:     c.Disabled,
